@@ -63,6 +63,9 @@ def operand_of(st, v, hyps):
         return Operand('imm', v.t, v)
     if isinstance(v, int):
         return Operand('imm', z3.IntVal(v), v)
+    if isinstance(v, I.SObj) and v.cls.name in ('Lo', 'Hi', 'Offset', 'Position'):
+        # a real label-dependent expression (the jalr half of a far call / tail): its final value is not the decision-time one
+        return Operand('imm', z3.Int('final_value_of_%s_%d' % (v.cls.name, id(v))), v)
     raise I.Unsupported('operand %r' % (v,))
 
 
@@ -137,6 +140,8 @@ def rule_obligations(ctx, ph, cls, name, tag, paths):
                 flag = st.item.fields.get('is_auipc_jump')
                 if isinstance(flag, I.Sym):
                     conds.append(z3.Not(flag.t))
+                elif flag is True:
+                    continue
                 hyp = list(p.pc) + valid_all + conds
                 ctx.add(Obligation('%s/%s/C20-eligible-for-%s-but-kept#%d' % (fn, tag, cm, i), hyp, z3.BoolVal(False), 'INT',
                                    func=fn, kind='post', cover=False,
@@ -188,13 +193,13 @@ def rule_obligations(ctx, ph, cls, name, tag, paths):
         legal = rvc.legal(INT, cm, [o.term for o in cops]) if cops else z3.BoolVal(True)
         ctx.add(Obligation('%s/%s/C12-%s-operands-accepted-by-encoder#%d' % (fn, tag, cm, i), hyp + oks, legal, 'INT', func=fn,
                            kind='post', cover=False, meta={'replay': ('compress_rule', {'name': name, 'kind': 'accept', 'cm': cm}),
-                                                           'props': ['C04', 'C12']}))
+                                                           'props': ['C04', 'C12', 'C06']}))
         # the second half of a far call/tail (is_auipc_jump) gets +4 added to its immediate by resolve_immediates
         # AFTER this decision: the decision-time value is not the final one, and a replacement without an `imm`
         # field loses the correction altogether.  Such an item must not be compressed.
         flag = st.item.fields.get('is_auipc_jump')
-        if isinstance(flag, I.Sym):
-            ctx.add(Obligation('%s/%s/%s-auipc-jump-half-is-not-compressed#%d' % (fn, tag, cm, i), hyp + [flag.t], z3.BoolVal(False),
+        if isinstance(flag, I.Sym) or flag is True:
+            ctx.add(Obligation('%s/%s/%s-auipc-jump-half-is-not-compressed#%d' % (fn, tag, cm, i), hyp + ([flag.t] if isinstance(flag, I.Sym) else []), z3.BoolVal(False),
                                'INT', func=fn, kind='post', cover=False,
                                meta={'replay': ('compress_rule', {'name': name, 'kind': 'auipc-jump', 'cm': cm}),
                                      'props': ['C03', 'C04', 'C05']}))
